@@ -194,6 +194,10 @@ func runCase(t *testing.T, c Case) kit.Verdict {
 					rs := neutrino.NewRescan(&neutrino.RescanChainSource{ChainService: cs},
 						neutrino.StartBlock(&headerfs.BlockStamp{Height: n.Height, Hash: n.Hash}),
 						neutrino.WatchAddrs(addr),
+						// a rescan needs a quit channel or an end block;
+						// this owner never closes its channel, so only the
+						// client's shutdown can release the rescan
+						neutrino.QuitChan(make(chan struct{})),
 						neutrino.NotificationHandlers(rpcclient.NotificationHandlers{
 							OnFilteredBlockConnected:    func(int32, *wire.BlockHeader, []*btcutil.Tx) {},
 							OnFilteredBlockDisconnected: func(int32, *wire.BlockHeader) {},
